@@ -94,6 +94,7 @@ func main() {
 		}
 		fn(r)
 		props.OtherTarget(r)
+		props.ThirdTarget(r)
 		props.ErrorsFirstChild(r)
 		return r.Finish()
 	}()
